@@ -66,12 +66,11 @@ func VpH_C11_position() {
 	d := &Driver{board: vpOldBoard}
 	d.handlePosition(vpFenArgs())
 	parsedOK := vp.Bits("fromfen_ok", 1) == 1
-	if d.board != vpOldBoard {
-		vp.Assert(parsedOK, "position-replaced-only-after-successful-parse")
-		vp.Assert(!d.board.InvalidPieceCount(), "position-replaced-only-if-piece-counts-plausible")
-	} else {
-		vp.Assert(!parsedOK || vpInvalid(), "parsed-and-plausible-position-is-installed")
-	}
+	replaced := d.board != vpOldBoard
+	invalid := vpInvalid()
+	vp.Assert(!replaced || parsedOK, "position-replaced-only-after-successful-parse")
+	vp.Assert(!replaced || !invalid, "position-replaced-only-if-piece-counts-plausible")
+	vp.Assert(replaced || !parsedOK || invalid, "parsed-and-plausible-position-is-installed")
 	vp.Cover("end")
 }
 
